@@ -1,26 +1,27 @@
 #!/bin/bash
 # tools/try_mutant.sh <property-id> <patch.diff> [more check ids...]
-# 1. scratch worktree: apply the patch, build, run the repository's own test suite (must pass)
-# 2. apply the patch to /repo, run the check(s) (quick tier), undo the patch
+# Scratch worktree of /repo: apply the patch, build, run the repository's own test suite (must pass), then run the
+# check(s) (quick tier) against that worktree (VERIF_REPO) - /repo itself is not touched. The worktree is removed.
 export GOFLAGS=-mod=mod GOPROXY=off GOSUMDB=off GOTOOLCHAIN=local
 ID=$1; PATCH=$(readlink -f "$2"); shift 2
 CHECKS="$ID $*"
 W=/tmp/mutv/$ID.$$
+mkdir -p /tmp/mutv
 git -C /repo worktree add -q --detach "$W" HEAD || exit 2
-( cd "$W" && (git apply "$PATCH" 2>/dev/null || git apply -3 "$PATCH") ) || { echo "PATCH DOES NOT APPLY"; git -C /repo worktree remove --force "$W"; exit 3; }
-( cd "$W" && go build ./... ) || { echo "MUTANT DOES NOT BUILD"; git -C /repo worktree remove --force "$W"; exit 3; }
+cleanup() { git -C /repo worktree remove --force "$W" 2>/dev/null; }
+( cd "$W" && (git apply "$PATCH" 2>/dev/null || git apply -3 "$PATCH") ) || { echo "PATCH DOES NOT APPLY"; cleanup; exit 3; }
+( cd "$W" && go build ./... ) || { echo "MUTANT DOES NOT BUILD"; cleanup; exit 3; }
 T=$(cd "$W" && go test -vet=off -count=1 ./... 2>&1 | grep -v "no test files" | grep -v "^ok" | head -5)
-git -C /repo worktree remove --force "$W"
-if [ -n "$T" ]; then echo "EXISTING TESTS FAIL WITH THE MUTANT:"; echo "$T"; exit 4; fi
+if [ -n "$T" ]; then echo "EXISTING TESTS FAIL WITH THE MUTANT:"; echo "$T"; cleanup; exit 4; fi
 echo "mutant builds, existing suite passes"
-cd /repo && (git apply "$PATCH" 2>/dev/null || git apply -3 "$PATCH") || { echo "cannot apply to /repo"; exit 3; }
 rc=0
+E=$(mktemp -d /dev/shm/verif-try.XXXX)
 for c in $CHECKS; do
-  out=$(cd /verif && timeout 1500 bin/check $c --tier quick 2>&1)
+  out=$(cd ${VERIF_HOME:-/verif} && VERIF_REPO="$W" VERIF_EVIDENCE_DIR=$E timeout 1500 bin/check $c --tier quick 2>&1)
   code=$?
   echo "== check $c exit=$code"
   echo "$out" | grep -E "signature:|^C[0-9]+ quick|harness" | cut -c1-260 | head -8
   [ $code -eq 1 ] && rc=1
 done
-git -C /repo checkout -- . ; git -C /repo status --short | head -3
+rm -rf $E; cleanup
 [ $rc -eq 1 ] && echo "DETECTED" || echo "NOT DETECTED"
